@@ -107,6 +107,22 @@ M = [
  ("c20-parse-unwrap", "src/lib.rs", "            let cmd = commands::parse(&packet)\n                .map_err(|e| {\n                    io::Error::new(\n                        io::ErrorKind::InvalidData,\n                        format!(\"unknown or malformed command: {:?}\", e),\n                    )\n                })?\n                .1;", "            let cmd = commands::parse(&packet).unwrap().1;", ["C20"], "F6 again"),
  ("c20-no-param-check", "src/lib.rs", "                        params.check()?;\n", "", ["C20"], "F6 again (params)"),
  ("c20-execute-short", "src/commands.rs", "    let (i, _iterations) = nom::number::complete::le_u32(i)?;\n    Ok((&[], Command::Execute { stmt, params: i }))", "    let _iterations = &i[..4];\n    Ok((&[], Command::Execute { stmt, params: &i[4..] }))", ["C20"], "slice index panic on truncated execute"),
+ # ---- property-preserving edits (alarm-soundness review, DESIGN.md section 5a): every check must stay green
+ ("keep-greeting-secure-conn", "src/lib.rs", "        let capabilities = &mut [0x00, 0x42]; // 4.1 proto", "        let capabilities = &mut [0x05, 0xc2]; // 4.1 proto, long password, long flag, secure connection", [], "greeting advertises more capabilities incl. SECURE_CONNECTION (salt part 2 is already sent)"),
+ ("keep-status-autocommit", "src/writers.rs", "    w.write_u16::<LittleEndian>(s.bits())?;\n    w.write_all(&[0x00, 0x00])?; // no warnings", "    w.write_u16::<LittleEndian>(s.bits() | 0x0002)?;\n    w.write_all(&[0x00, 0x00])?; // no warnings", [], "SERVER_STATUS_AUTOCOMMIT set in every OK"),
+ ("keep-eof-status-autocommit", "src/writers.rs", "    w.write_all(&[0xFE, 0x00, 0x00])?;\n    w.write_u16::<LittleEndian>(s.bits())?;", "    w.write_all(&[0xFE, 0x00, 0x00])?;\n    w.write_u16::<LittleEndian>(s.bits() | 0x0002)?;", [], "SERVER_STATUS_AUTOCOMMIT set in every EOF"),
+ ("keep-ok-info-string", "src/writers.rs", "    w.write_all(&[0x00, 0x00])?; // no warnings\n    w.end_packet()", "    w.write_all(&[0x00, 0x00])?; // no warnings\n    w.write_lenenc_str(b\"Rows matched: 0\")?;\n    w.end_packet()", [], "OK packets carry an info string (length-encoded, as real servers send it; a raw string<EOF> is rejected by the mysql crate itself)"),
+ ("keep-coldef-charset-length", "src/writers.rs", "        w.write_u32::<LittleEndian>(1024)?;", "        w.write_u32::<LittleEndian>(255)?;", [], "other column display length"),
+ ("keep-close-order", "src/lib.rs", "                    self.shim.on_close(stmt);\n                    stmts.remove(&stmt);", "                    stmts.remove(&stmt);\n                    self.shim.on_close(stmt);", [], "registry updated before on_close"),
+ ("keep-error-kind-unknown-stmt", "src/lib.rs", "                        io::Error::new(\n                            io::ErrorKind::InvalidData,\n                            format!(\"asked to execute unknown statement {}\", stmt),", "                        io::Error::new(\n                            io::ErrorKind::NotFound,\n                            format!(\"no such statement: {}\", stmt),", [], "other io::ErrorKind and text for library-made errors"),
+ ("keep-fraction-always", "src/value/encode.rs", "        let us = self.nanosecond() / 1_000;\n\n        if us != 0 {\n            w.write_lenenc_str(\n                format!(\n                    \"{:04}-{:02}-{:02} {:02}:{:02}:{:02}.{:06}\",", "        let us = self.nanosecond() / 1_000;\n\n        if us != 0 || true {\n            w.write_lenenc_str(\n                format!(\n                    \"{:04}-{:02}-{:02} {:02}:{:02}:{:02}.{:06}\",", [], "fractional seconds always printed in text datetimes"),
+ ("keep-datetime-bin-always-11", "src/value/encode.rs", "                if us != 0 {\n                    w.write_u8(11u8)?;\n                } else {\n                    w.write_u8(7u8)?;\n                }", "                w.write_u8(11u8)?;", ["C07"], "NOT preserving on its own: length byte 11 without the microseconds (control)"),
+ ("keep-assert-to-err", "src/value/encode.rs", "            ColumnType::MYSQL_TYPE_TINY => {\n                assert!(!signed);\n                w.write_u8(*self)", "            ColumnType::MYSQL_TYPE_TINY => {\n                if signed {\n                    return Err(bad(self, c));\n                }\n                w.write_u8(*self)", [], "assert! refusal turned into Err"),
+ ("keep-flush-every-packet", "src/packet.rs", "        self.to_write.truncate(4); // back to just header\n        Ok(())\n    }\n\n    fn maybe_end_packet", "        self.to_write.truncate(4); // back to just header\n        self.rw.flush()?;\n        Ok(())\n    }\n\n    fn maybe_end_packet", [], "transport flushed after every packet"),
+ ("keep-text-col-count-early", "src/resultset.rs", "        } else {\n            v.to_mysql_text(self.result.as_mut().unwrap().writer)?;\n        }", "        } else {\n            if self.col >= self.columns.len() {\n                return Err(io::Error::new(io::ErrorKind::InvalidData, \"row has more columns than specification\"));\n            }\n            v.to_mysql_text(self.result.as_mut().unwrap().writer)?;\n        }", [], "text rows refuse surplus cells already in write_col"),
+ ("keep-fieldlist-err", "src/lib.rs", "                    writers::write_column_definitions(cols, &mut self.rw, true, true)?;", "                    let _ = cols;\n                    writers::write_err(ErrorKind::ER_NOT_SUPPORTED_YET, b\"COM_FIELD_LIST\", &mut self.rw)?;", [], "FIELD_LIST answered with ERR (a legal reply)"),
+ ("keep-probe-resultset", "src/lib.rs", "                            _ => {\n                                w.completed(0, 0)?;\n                            }", "                            _ => {\n                                let cols = &[Column { table: String::new(), column: \"@@x\".to_owned(), coltype: myc::constants::ColumnType::MYSQL_TYPE_VAR_STRING, colflags: myc::constants::ColumnFlags::empty() }];\n                                let mut w = w.start(cols)?;\n                                w.write_row(iter::once(\"\"))?;\n                                w.finish()?;\n                            }", [], "SELECT @@x answered with a one-row resultset"),
+ ("keep-use-tab", "src/lib.rs", "} else if q.starts_with(b\"USE \") || q.starts_with(b\"use \") {", "} else if q.starts_with(b\"USE \") || q.starts_with(b\"use \") || q.starts_with(b\"USE\\t\") {", [], "USE<TAB>db recognised too (grey spelling)"),
 ]
 
 EXTRA_SRC = {
